@@ -81,6 +81,7 @@ def build_harness():
         ok = os.path.exists(exe) and "could not compile" not in out and rc == 0
         os.environ["MXVM_BIN"] = exe
         return ok, out
+    env["CARGO_TARGET_DIR"] = os.path.join(ROOT, ".cache", "target")      # independent of where the tree is checked out
     rc, out, err = sh("cargo build --offline 2>&1 | tail -40", cwd=os.path.join(ROOT, "harness"), env=env, timeout=3000)
     ok = os.path.exists(os.path.join(ROOT, ".cache", "target", "debug", "mxvm")) and "error" not in out.lower().split("warning")[0] and "could not compile" not in out
     return ok, out
